@@ -208,6 +208,39 @@ def check_case(case, acc):
                     if abs(r["average"] - w.mean()) > 1e-6 or abs(r["rms"] - math.sqrt((w ** 2).mean())) > 1e-6 or abs(r["max"] - np.abs(w).max()) > 1e-6:
                         bad("error-summary:" + col, "summary of %s errors (avg %.6f rms %.6f max %.6f) differs from recomputation (%.6f, %.6f, %.6f)" % (
                             col, r["average"], r["rms"], r["max"], w.mean(), math.sqrt((w ** 2).mean()), np.abs(w).max()))
+        # ---- error summaries per label and per selection (scene) ------------------------------------
+        pairs_ref = []   # (scene, gt label value, gt spec, est spec) of every TP pair and every FP pair that has a ground truth
+        for si, fr, ests, gts, es, gs in all_frames:
+            p = fr.pass_fail_result
+            for r in list(p.tp_object_results) + [x for x in p.fp_object_results if x.ground_truth_object is not None]:
+                pairs_ref.append((si, r.ground_truth_object.semantic_label.label.value, specs[(si, int(fr.frame_name), r.ground_truth_object.uuid)],
+                                  specs[(si, int(fr.frame_name), r.estimated_object.uuid)]))
+        selections = [None] + ([0, 1] if len(case["scenes"]) > 1 else [])
+        for sel in selections:
+            acc.exec()
+            try:
+                errdf = an.analyze(scene=sel).error if sel is not None else an.analyze().error
+            except Exception as ex:  # noqa
+                bad("analyze:raises", "analyze(scene=%r) raised %r" % (sel, ex))
+                continue
+            if errdf is None:
+                continue
+            for lab in ["ALL"] + [l.value for l in ec.target_labels]:
+                sub = [(g, e) for s_, gl, g, e in pairs_ref if (sel is None or s_ == sel) and (lab == "ALL" or gl == lab)]
+                for col, fn in (("x", lambda g, e: g["x"] - e["x"]), ("y", lambda g, e: g["y"] - e["y"]), ("yaw", lambda g, e: _wrap(g["yaw"] - e["yaw"]))):
+                    w = np.asarray([fn(g, e) for g, e in sub], dtype=float)
+                    try:
+                        r = errdf.loc[(lab, col)]
+                    except KeyError:
+                        continue
+                    if len(w) == 0:
+                        if not (isinstance(r["average"], float) and math.isnan(r["average"])):
+                            bad("error-summary:selection", "selection scene=%r label=%s column %s: summary %.6f although no paired row matches" % (sel, lab, col, r["average"]))
+                        continue
+                    if any(isinstance(r[k], float) and math.isnan(r[k]) for k in ("average", "rms", "max")) or abs(r["average"] - w.mean()) > 1e-6 \
+                            or abs(r["rms"] - math.sqrt((w ** 2).mean())) > 1e-6 or abs(r["max"] - np.abs(w).max()) > 1e-6:
+                        bad("error-summary:selection", "selection scene=%r label=%s column %s: summary (avg %.6f rms %.6f max %.6f) differs from the paired rows of the selection "
+                            "(%.6f, %.6f, %.6f)" % (sel, lab, col, r["average"], r["rms"], r["max"], w.mean(), math.sqrt((w ** 2).mean()), np.abs(w).max()))
         # ---- analyze: rates, confusion matrix ------------------------------------------------------
         acc.exec()
         res = an.analyze()
